@@ -4,6 +4,7 @@ point-wise stores are entry-wise folds, ranges with array reads are folds over z
 real-number instance of `NumOrd`.
 -/
 import GlotaranModel.Generated.C05Fns
+import GlotaranModel.Generated.C05Irf
 import GlotaranProofs.Lemmas.C05
 namespace Glotaran.C05
 open Real
@@ -276,6 +277,58 @@ theorem spectral_dispersion_eq (cd wd : List Rat) (dist : Rat) (cs ws : List Rat
   unfold Gen.spectral_dispersion enumFold
   simp only [enumFold_dispLoop]
   cases cd <;> cases wd <;> simp
+
+
+
+/-! ### helpers for the method-level translation (Generated/C05Irf.lean) and the checked `calculate_matrix` -/
+
+/-- the exception of a result, for examples (`IrfError` has decidable equality, matrices of terms have not) -/
+def errOf {ε β : Type} : Except ε β → Option ε
+  | .error e => some e
+  | .ok _ => none
+
+theorem matmul_eq_applyA {α : Type} [Num α] (M : Matrix α) (a : List (List Rat)) (n : Nat) :
+    Matrix.matmul M a n = Matrix.applyA a n M := by
+  cases M <;> rfl
+
+/-- every row of `irf_center_location` has one entry per global index -/
+theorem calculateDispersion_rows (irf : Irf) (axis : List Rat) (loc : List (List Rat))
+    (h : calculateDispersion irf axis = .ok loc) : loc.all (fun r => r.length == axis.length) = true := by
+  unfold calculateDispersion at h
+  cases hps : (List.range axis.length).mapM (fun i => spectralParameter irf (some i) axis) with
+  | error e => simp [hps] at h
+  | ok ps =>
+    simp only [hps, Except.ok.injEq] at h
+    obtain ⟨hl, _⟩ := mapM_ok _ _ _ hps
+    subst h
+    simp [hl]
+
+/-- dividing a non-empty matrix by a zero sum of scales leaves no finite entry -/
+theorem normalised_zero_sum_not_finite (p : Params) (times rates : List Rat) (h0 : p.scales.sum = 0)
+    (ht : times ≠ []) (hr : rates ≠ []) :
+    (matrixOfParams (α := Term) true p times rates).all (fun row => row.all Term.finite) = false := by
+  obtain ⟨t, ts, rfl⟩ := List.exists_cons_of_ne_nil ht
+  obtain ⟨k, ks, rfl⟩ := List.exists_cons_of_ne_nil hr
+  simp [matrixOfParams, normalise, kernelOnIndex, h0, Num.div, Num.ofRat, Term.finite]
+
+/-- the `irf` variable of the result is `Irf.calculate(index = 0)` -/
+theorem retrieveIrf_irf {α : Type} [Num α] (irf : Irf) (axis times : List Rat) (r : IrfResult α)
+    (h : retrieveIrf irf axis times = .ok r) : irfCalculate irf 0 axis times = .ok r.irf := by
+  unfold retrieveIrf at h
+  cases hv : irfCalculate (α := α) irf 0 axis times with
+  | error e => simp [hv] at h
+  | ok v =>
+    simp only [hv] at h
+    congr 1
+    split at h
+    · simp at h
+    · split at h
+      · simp at h
+      · split at h
+        · split at h
+          · simp at h
+          · simp only [Except.ok.injEq] at h; rw [← h]
+        · simp only [Except.ok.injEq] at h; rw [← h]
 
 
 end Glotaran.C05
